@@ -542,13 +542,13 @@ Qed.
 
 (* an early `?`: Err with the call stack untouched and some registers pushed *)
 Lemma cleanup_early : forall e v', base v' = 0 -> stack v' = [] -> 0 <= regs v' ->
-  fst (cleanup 0 (HErr e, v')) <> HPanic /\ frames_clean (snd (cleanup 0 (HErr e, v'))) /  aux (snd (cleanup 0 (HErr e, v'))) = aux v'.
+  fst (cleanup 0 (HErr e, v')) <> HPanic /\ frames_clean (snd (cleanup 0 (HErr e, v'))) /\ aux (snd (cleanup 0 (HErr e, v'))) = aux v'.
 Proof.
   intros e v' B S R. unfold cleanup, frames_clean. simpl. repeat split; auto; try discriminate. lia.
 Qed.
 
 Lemma host_restores : forall h, in_class h = true -> forall v, clean v ->
-  fst (host h v) <> HPanic /\ frames_clean (snd (host h v)) /  (safe (op_code h) = true -> aux (snd (host h v)) = aux v).
+  fst (host h v) <> HPanic /\ frames_clean (snd (host h v)) /\ (safe (op_code h) = true -> aux (snd (host h v)) = aux v).
 Proof.
   intros h Hc v (R0 & B0 & S0 & Q0 & T0 & P0).
   unfold in_class in Hc. apply andb_true_iff in Hc as [Hwf Hfl].
@@ -569,8 +569,9 @@ Proof.
     pose proof (finish_clean c (mkVm (1 + required) 1 [b] 0 0 0 ex hr td) b Hfl eq_refl eq_refl eq_refl eq_refl
                   Hp _ eq_refl) as (F1 & F2 & F3).
     destruct (cleanup_ok _ F1 F2) as (G1 & G2 & G3).
-    unfold host, do_call, with_register_cleanup, do_call_inner, enter_koto, next_register, push_regs, push_frame,
-      set_barrier, new_frame; simpl.
+    match goal with |- context [host ?h ?w] =>
+      assert (E : host h w = cleanup 0 (finish_activation (exec c (mkVm (1 + required) 1 [b] 0 0 0 ex hr td)) 0))
+        by reflexivity; rewrite E end.
     split; [exact G1|]. split; [exact G2|]. intros Hs. rewrite G3. exact (F3 Hs).
   - (* HCallPre *)
     apply Z.leb_le in Hwf.
@@ -578,7 +579,8 @@ Proof.
     cbn [regs base stack seqb strb placeholders exports].
     change ((0 + 1 - 0) mod 256) with 1. change (255 <=? 1) with false. cbv iota.
     match goal with |- context [cleanup 0 (HErr ?e, ?w)] =>
-      destruct (cleanup_early e w eq_refl eq_refl ltac:(simpl; lia)) as (G1 & G2 & G3) end.
+      assert (Rw : 0 <= regs w) by (cbn [regs]; lia);
+      destruct (cleanup_early e w eq_refl eq_refl Rw) as (G1 & G2 & G3) end.
     split; [exact G1|]. split; [exact G2|]. intros _. rewrite G3. reflexivity.
   - (* HCallNative *)
     apply Z.leb_le in Hwf.
@@ -587,7 +589,7 @@ Proof.
     change ((0 - 0) mod 256) with 0. change ((0 + 1 - 0) mod 256) with 1. change (255 <=? 1) with false.
     cbn [regs base stack seqb strb placeholders exports fst snd]. cbv iota.
     match goal with |- context [cleanup 0 (HOk, ?w)] =>
-      assert (Fw : frames_clean w) by (unfold frames_clean; simpl; repeat split; auto; lia);
+      assert (Fw : frames_clean w) by (unfold frames_clean; cbn [regs base stack]; repeat split; auto; lia);
       destruct (cleanup_ok (HOk, w) ltac:(simpl; discriminate) Fw) as (G1 & G2 & G3) end.
     split; [exact G1|]. split; [exact G2|]. intros _. rewrite G3. reflexivity.
   - (* HUnopKoto *)
@@ -597,25 +599,19 @@ Proof.
     pose proof (finish_clean c (mkVm (2 + required) 2 [b] 0 0 0 ex hr td) b Hfl eq_refl eq_refl eq_refl eq_refl
                   Hp _ eq_refl) as (F1 & F2 & F3).
     destruct (cleanup_ok _ F1 F2) as (G1 & G2 & G3).
-    unfold host, do_op, with_register_cleanup, do_op_inner, enter_koto, next_register, push_regs, push_frame,
-      set_barrier, new_frame; simpl.
+    match goal with |- context [host ?h ?w] =>
+      assert (E : host h w = cleanup 0 (finish_activation (exec c (mkVm (2 + required) 2 [b] 0 0 0 ex hr td)) 0))
+        by reflexivity; rewrite E end.
     split; [exact G1|]. split; [exact G2|]. intros Hs. rewrite G3. exact (F3 Hs).
   - (* HUnopPre *)
-    unfold host, do_op, with_register_cleanup, do_op_inner, next_register, push_regs; simpl.
-    match goal with |- context [cleanup 0 (HErr ?e, ?w)] =>
-      destruct (cleanup_early e w eq_refl eq_refl ltac:(simpl; lia)) as (G1 & G2 & G3) end.
-    split; [exact G1|]. split; [exact G2|]. intros _. rewrite G3. reflexivity.
+    unfold host, do_op, with_register_cleanup, cleanup, do_op_inner, next_register, push_regs, truncate_registers, frames_clean;
+      simpl; repeat split; auto; discriminate.
   - (* HUnopPreOv *)
-    unfold host, do_op, with_register_cleanup, do_op_inner, next_register, push_regs; simpl.
-    match goal with |- context [cleanup 0 (HErr ?e, ?w)] =>
-      destruct (cleanup_early e w eq_refl eq_refl ltac:(simpl; lia)) as (G1 & G2 & G3) end.
-    split; [exact G1|]. split; [exact G2|]. intros _. rewrite G3. reflexivity.
+    unfold host, do_op, with_register_cleanup, cleanup, do_op_inner, next_register, push_regs, truncate_registers, frames_clean;
+      simpl; repeat split; auto; discriminate.
   - (* HUnopPlain *)
-    unfold host, do_op, with_register_cleanup, do_op_inner, next_register, push_regs, truncate_registers; simpl.
-    match goal with |- context [cleanup 0 (HOk, ?w)] =>
-      assert (Fw : frames_clean w) by (unfold frames_clean; simpl; repeat split; auto);
-      destruct (cleanup_ok (HOk, w) ltac:(simpl; discriminate) Fw) as (G1 & G2 & G3) end.
-    split; [exact G1|]. split; [exact G2|]. intros _. rewrite G3. reflexivity.
+    unfold host, do_op, with_register_cleanup, cleanup, do_op_inner, next_register, push_regs, truncate_registers, frames_clean;
+      simpl; repeat split; auto; discriminate.
   - (* HBinopKoto *)
     apply Z.leb_le in Hwf.
     set (b := mkFrame 3 required [] true).
@@ -623,20 +619,16 @@ Proof.
     pose proof (finish_clean c (mkVm (3 + required) 3 [b] 0 0 0 ex hr td) b Hfl eq_refl eq_refl eq_refl eq_refl
                   Hp _ eq_refl) as (F1 & F2 & F3).
     destruct (cleanup_ok _ F1 F2) as (G1 & G2 & G3).
-    unfold host, do_op, with_register_cleanup, do_op_inner, enter_koto, next_register, push_regs, push_frame,
-      set_barrier, new_frame; simpl.
+    match goal with |- context [host ?h ?w] =>
+      assert (E : host h w = cleanup 0 (finish_activation (exec c (mkVm (3 + required) 3 [b] 0 0 0 ex hr td)) 0))
+        by reflexivity; rewrite E end.
     split; [exact G1|]. split; [exact G2|]. intros Hs. rewrite G3. exact (F3 Hs).
   - (* HBinopPre *)
-    unfold host, do_op, with_register_cleanup, do_op_inner, next_register, push_regs; simpl.
-    match goal with |- context [cleanup 0 (HErr ?e, ?w)] =>
-      destruct (cleanup_early e w eq_refl eq_refl ltac:(simpl; lia)) as (G1 & G2 & G3) end.
-    split; [exact G1|]. split; [exact G2|]. intros _. rewrite G3. reflexivity.
+    unfold host, do_op, with_register_cleanup, cleanup, do_op_inner, next_register, push_regs, truncate_registers, frames_clean;
+      simpl; repeat split; auto; discriminate.
   - (* HBinopPlain *)
-    unfold host, do_op, with_register_cleanup, do_op_inner, next_register, push_regs, truncate_registers; simpl.
-    match goal with |- context [cleanup 0 (HOk, ?w)] =>
-      assert (Fw : frames_clean w) by (unfold frames_clean; simpl; repeat split; auto);
-      destruct (cleanup_ok (HOk, w) ltac:(simpl; discriminate) Fw) as (G1 & G2 & G3) end.
-    split; [exact G1|]. split; [exact G2|]. intros _. rewrite G3. reflexivity.
+    unfold host, do_op, with_register_cleanup, cleanup, do_op_inner, next_register, push_regs, truncate_registers, frames_clean;
+      simpl; repeat split; auto; discriminate.
   - simpl. unfold frames_clean. simpl. repeat split; auto; discriminate.
 Qed.
 
